@@ -355,7 +355,7 @@ def rule_r7_concrete(ctx: Ctx) -> None:
     from . import concrete as C
     from .c06 import _same
 
-    ctx.rule("C14.R7", "two revisions D / D' of a delimited type with the same extent (D' appends fields), nested as field, array element, union variant and inside another delimited type: the containers' bit_length_set and extent are equal, and data serialized with either revision deserializes with the other - common fields keep their values, appended ones read as zero / empty, unknown ones are skipped, and everything after the nested object (further elements, following fields) is read correctly [bounded grid, evaluated from the source]", min_instances=8)
+    ctx.rule("C14.R7", "two revisions D / D' of a delimited type with the same extent (D' appends fields), nested as field, array element, union variant and inside another delimited type: the containers' bit_length_set and extent are equal, and data serialized with either revision deserializes with the other - common fields keep their values, appended ones read as zero / empty, unknown ones are skipped, and everything after the nested object (further elements, following fields) is read correctly [bounded grid, evaluated from the source]", min_instances=12)
     T = C.Types(ctx)
     u8, u16 = T.uint(8), T.uint(16, True)
     inner = T.struct("Inner {uint8 q}", [("q", u8)])
@@ -369,24 +369,31 @@ def rule_r7_concrete(ctx: Ctx) -> None:
         ("G", [("valid", T.boolean()), ("n", inner), ("m", inner5)], [("c", u16, 0), ("f", T.uint(7), 0), ("d", T.varr(u8, 2), [])],
          [{"valid": True, "n": {"q": 0xFF}, "m": {"r": 31}, "c": 0xFFFF, "f": 127, "d": [255, 255]}, {"valid": False, "n": {"q": 1}, "m": {"r": 0}, "c": 1, "f": 1, "d": []}, {"valid": True, "n": {"q": 0x80}, "m": {"r": 17}, "c": 0x8001, "f": 64, "d": [128]}]),
     ]
+    # a third family: the appended fields include one that is itself delimited (its header lies in the zero-extension region
+    # when an older, shorter payload is read) and a variable-length array of composites
+    nested_d = T.delimited(T.struct("Nd {uint8 q}", [("q", u8)]), 64)
+    families.append(
+        ("H", [("a", u8), ("flag", T.boolean())], [("nd", nested_d, {"q": 0}), ("arr", T.varr(inner, 2), []), ("tail", u8, 0)],
+         [{"a": 1, "flag": True, "nd": {"q": 7}, "arr": [{"q": 1}], "tail": 0xFF}, {"a": 255, "flag": False, "nd": {"q": 0}, "arr": [], "tail": 0}, {"a": 0x80, "flag": True, "nd": {"q": 255}, "arr": [{"q": 255}, {"q": 1}], "tail": 0x7F}])
+    )
     for fam, old_fields, appended, samples in families:
-        n += _revisions(ctx, T, C, fam, old_fields, appended, samples)
+        n += _revisions(ctx, T, C, fam, old_fields, appended, samples, 256 if fam == "H" else 128)
     ctx.count(n)
 
 
-def _revisions(ctx: Ctx, T: Any, C: Any, fam: str, old_fields: List[Any], appended: List[Any], samples: List[Dict[str, Any]]) -> int:
+def _revisions(ctx: Ctx, T: Any, C: Any, fam: str, old_fields: List[Any], appended: List[Any], samples: List[Dict[str, Any]], extent: int = 128) -> int:
     from .c06 import _same
 
     u8, u16 = T.uint(8), T.uint(16, True)
     new_fields = old_fields + [(nm, t) for nm, t, _ in appended]
     zero = {nm: z for nm, _, z in appended}
-    d_old = T.delimited(T.struct("%s {%s}" % (fam, "; ".join(nm for nm, _ in old_fields)), old_fields), 128)
-    d_new = T.delimited(T.struct("%s' {%s}" % (fam, "; ".join(nm for nm, _ in new_fields)), new_fields), 128)
+    d_old = T.delimited(T.struct("%s {%s}" % (fam, "; ".join(nm for nm, _ in old_fields)), old_fields), extent)
+    d_new = T.delimited(T.struct("%s' {%s}" % (fam, "; ".join(nm for nm, _ in new_fields)), new_fields), extent)
 
     def containers(d: Any) -> List[Any]:
         st = T.struct("C {uint3 x; %s one; uint8 y; %s[<=3] many; %s[2] pair; uint8 z}" % (fam, fam, fam), [("x", T.uint(3)), ("one", d), ("y", u8), ("many", T.varr(d, 3)), ("pair", T.farr(d, 2)), ("z", u8)])
         un = T.union("V {uint8 k; %s v; uint16 w}" % fam, [("k", u8), ("v", d), ("w", u16)])
-        outer = T.delimited(T.struct("O {%s first; V u; uint8 last}" % fam, [("first", d), ("u", un), ("last", u8)]), 1024)
+        outer = T.delimited(T.struct("O {%s first; V u; uint8 last}" % fam, [("first", d), ("u", un), ("last", u8)]), 2048)
         return [st, un, outer, d]
 
     olds, news = containers(d_old), containers(d_new)
@@ -395,7 +402,7 @@ def _revisions(ctx: Ctx, T: Any, C: Any, fam: str, old_fields: List[Any], append
     def blank(v: Any) -> Any:
         """what a reader of the new revision sees of an object written by the old one"""
         out = {k: v[k] for k in old_names}
-        out.update({k: (list(z) if isinstance(z, list) else z) for k, z in zero.items()})
+        out.update({k: (list(z) if isinstance(z, list) else dict(z) if isinstance(z, dict) else z) for k, z in zero.items()})
         return out
 
     def strip(v: Any) -> Any:
